@@ -48,12 +48,15 @@ func TestC13(t *testing.T) {
 	if tier() == "quick" {
 		fileNames = []string{"minimal", "1KiB"}
 	}
+	cmdDir := "" // exec.Cmd.Dir of the command the next run() hands to the client
 	run := func(desc string, path string, h hash.Hash, sum []byte, wantLaunch bool, wantErr string) {
 		os.Remove(marker)
+		cmd := exec.Command(path)
+		cmd.Dir = cmdDir
 		c := plugin.NewClient(&plugin.ClientConfig{
 			HandshakeConfig: plugin.HandshakeConfig{MagicCookieKey: "K", MagicCookieValue: "v", ProtocolVersion: 1},
 			Plugins:         map[string]plugin.Plugin{},
-			Cmd:             exec.Command(path),
+			Cmd:             cmd,
 			SecureConfig:    &plugin.SecureConfig{Checksum: sum, Hash: h},
 			StartTimeout:    5 * time.Second,
 			Logger:          hclog.NewNullLogger(),
@@ -218,6 +221,28 @@ func TestC13(t *testing.T) {
 			run(d("of the executed file"), pc.path, sha256.New(), sum(real), true, "")
 			run(d("of the decoy at a/plugin"), pc.path, sha256.New(), sum(decoy), false, "mismatch")
 		}
+	}
+	// ---- a relative command path with Cmd.Dir set: os/exec evaluates such a path relative to Dir, so "the file at
+	// the command path" is Dir/path; a decoy sits at the same relative path under the host's working directory
+	{
+		root := filepath.Join(dir, "rel")
+		sub := fmt.Sprintf("c13rel-%d", os.Getpid())
+		os.MkdirAll(filepath.Join(root, sub), 0o755)
+		os.MkdirAll(sub, 0o755) // under the working directory of this (host) process
+		defer os.RemoveAll(sub)
+		real, decoy := script(13), []byte("#!/bin/sh\necho decoy >> "+marker+"\necho '1|1|tcp|127.0.0.1:1234'\nexec sleep 5\n")
+		os.WriteFile(filepath.Join(root, sub, "plugin"), real, 0o755)
+		os.WriteFile(filepath.Join(root, sub, "only-here"), real, 0o755)
+		os.WriteFile(filepath.Join(sub, "plugin"), decoy, 0o755)
+		sum := func(b []byte) []byte { h := sha256.New(); h.Write(b); return h.Sum(nil) }
+		cmdDir = root
+		d := func(s string) string {
+			return "relative command path ./" + "<sub>/plugin with Cmd.Dir set (executes Dir/<sub>/plugin) checksum=" + s
+		}
+		run(d("of the executed file"), "./"+sub+"/plugin", sha256.New(), sum(real), true, "")
+		run(d("of the file at the same relative path under the host's working directory"), "./"+sub+"/plugin", sha256.New(), sum(decoy), false, "mismatch")
+		run("relative command path with Cmd.Dir set, no file of that name under the host's working directory, checksum=of the executed file", "./"+sub+"/only-here", sha256.New(), sum(real), true, "")
+		cmdDir = ""
 	}
 	{
 		sum := func(b []byte) []byte { h := sha256.New(); h.Write(b); return h.Sum(nil) }
